@@ -70,7 +70,7 @@ def generate(seed, tier):
     checks = []
     for index in range(swarm.choice([0, 1, 1, 2, 3])):
         behaviour = swarm.choice(["", "", "veto=x", "veto=y", "end=fail", "veto=x;end=fail"])
-        checks.append(["c%d" % index, swarm.choice(["RecX", "RecY"]), behaviour])
+        checks.append([["zulu", "alpha", "mike"][index] + str(index), swarm.choice(["RecX", "RecY"]), behaviour])  # declaration order is not alphabetical order
     if checks and swarm.random() < 0.25:
         checks.insert(swarm.randint(0, len(checks)), ["uniq", "IsUnique", "f0"])
     spec = {"format": fmt, "header": swarm.choice([0, 0, 1, 2]), "fields": fields, "checks": checks,
